@@ -271,7 +271,7 @@ Section Store.
     else
       match st_find s c with
       | Some (CArr ch) => select (symbolic s) c ch k
-      | Some (CScalar _) => LZero (* unreachable *)
+      | Some (CScalar _) => select (symbolic s) c [] k (* unreachable *)
       | None => select (symbolic s) c [] k
       end.
 
